@@ -11,6 +11,7 @@ THEOREMS = [
             "Lou.ModelEngine.callFwd_eq", "Lou.ModelEngine.callBack_eq",
             "Lou.ModelEngine.engineFor_ok", "Lou.FwdCOK.translateC_contract", "Lou.FwdCOK.actionC_ok",
             "Lou.ModelEngine.engineForBack_ok", "Lou.BackCOK.translateC_contract", "Lou.BackCOK.actionC_ok",
+            "Lou.C05Ctx.walkChainC_first", "Lou.C05CtxB.walkChainC_first",
 ]
 
 CLAIM = dict(
